@@ -9,7 +9,11 @@ BIG_ID = 5000          # nat numerals above this are never written into a case f
 # ---------------------------------------------------------------- JSON observation -> Coq term (coq/Bridge/Twin.v)
 KIND = {0: "KNever", 1: "KOnce", 2: "KMany"}
 def n(x): return "%d" % int(x)
-def nat(x): return "%d%%nat" % int(x)
+def nat(x):
+    # unary numerals make the parsed term as large as the number: anything above 3 is written as N.to_nat of a
+    # binary literal and evaluated by vm_compute with the rest of the case
+    x = int(x)
+    return "%d%%nat" % x if x <= 3 else "(N.to_nat %d%%N)" % x
 def zlit(x): return ("(%d)%%Z" % int(x)) if int(x) < 0 else ("%d%%Z" % int(x))
 def coq_id(i):
     """ids far beyond anything the slab can hold in a generated history (the harness also sends 65536,
@@ -294,4 +298,141 @@ def check_C02(run, replay=None):
                         "legacy capabilities: a stream whose request the shell drops is never ended (nothing wakes its task); modelled as such (ch_legacy)"]
     run.trusted += ["hand-written model coq/Bridge/Resolve.v", "harness/src/bin/bridge_arity.rs + bridge_common (test apps, Mark notifications linking a request to its task, "
                     "real serde for bodies, catch_unwind)", "verif hook Bridge::verif_registry (read-only, to tell which request an id addresses)",
+                    "lib/common.py parser of coqc output, engines/bridge_eng.py JSON->Coq printer"]
+
+# ---------------------------------------------------------------- C13
+K_BITS = {1: "registry_keeps_notifications", 2: "registry_keeps_finished_streams",
+          4: "legacy_task_kept_after_unresolvable_request", 8: "cleared_timer_id_kept_for_ever"}
+
+RELEASE_HEADER = ("From Coq Require Import List ZArith NArith. Import ListNotations.\n"
+                  "From Crux Require Import Bridge.Bridge Bridge.Resolve Bridge.Arity Bridge.Twin Bridge.Timer Bridge.Release.\nOpen Scope N_scope.\n")
+
+def release_task_file(cases):
+    def one(c):
+        steps = lst(["mkRstep (%s) %s %s" % (coq_arity_step(s), zlit(s["tok"]), zlit(s["exec"])) for s in c["steps"]])
+        return "(%s, %s, %s)" % ("true" if c["auto_poll"] else "false", "true" if c["host"].endswith("_old") else "false", steps)
+    return RELEASE_HEADER + "Definition cs : list (bool * bool * list rstep) := [\n" + ";\n".join(one(c) for c in cases) + \
+        "].\nEval vm_compute in (release_diags cs).\n"
+
+def release_reg_file(cases):
+    def one(c):
+        prev = {}
+        xs = []
+        for s in c["steps"]:
+            snap = s["snap"]
+            cur = {} if (snap and snap[0][0] == "panic") else {int(i): int(k) for i, k in snap}
+            removed = [i for i, k in prev.items() if cur.get(i) != k]
+            added = sorted((i, k) for i, k in cur.items() if prev.get(i) != k)
+            prev = cur
+            xs.append("mkD (%s) %s %s %s %s %s %s" % (coq_call(dict(s, snap=[])), lst([nat(coq_id(i)) for i in removed]),
+                      lst(["(%s, %s)" % (nat(coq_id(i)), KIND[k]) for i, k in added]),
+                      zlit(s["exec"]), zlit(s["tok"]), zlit(s["texec"]), zlit(s["ttok"])))
+        return "(%s, %s)" % (nlist(c["init_view"]), lst(xs))
+    return RELEASE_HEADER + "Definition cs : list (aview * list dcall) := [\n" + ";\n".join(one(c) for c in cases) + \
+        "].\nEval vm_compute in (reg_diags cs).\n"
+
+def release_timer_file(cases):
+    def act(a):
+        return {"set": "TSet", "clear": "TClear %s" % nat(a[1]) if len(a) > 1 else "", "respond": "TRespond %s" % nat(a[1]) if len(a) > 1 else ""}[a[0]]
+    def one(c):
+        return "(%s, %s)" % (nat(c["first_id"]), lst(["(%s, %s, %s)" % (act(s["act"]), zlit(s["cleared"]), zlit(s["waiting"])) for s in c["steps"]]))
+    return RELEASE_HEADER + "Definition cs : list (nat * list (taction * Z * Z)) := [\n" + ";\n".join(one(c) for c in cases) + \
+        "].\nEval vm_compute in (timer_diags cs).\n"
+
+def eval_release(run, prop_dir, cases, filefn, nsh_max=16):
+    nsh = nsh_max if len(cases) >= nsh_max else max(1, len(cases))
+    shards = [s for s in (cases[i::nsh] for i in range(nsh)) if s]
+    res = C.run_case_files(prop_dir, [filefn(s) for s in shards], timeout=2400)
+    out = []
+    for sh, (ok, vals, raw) in zip(shards, res):
+        if not ok or len(vals) != 1 or len(vals[0]) != 3 * len(sh):
+            run.oblige("case-evaluation shard %s (coqc vm_compute)" % prop_dir, False, raw[-800:]); continue
+        for k, c in enumerate(sh):
+            out.append((c, vals[0][3 * k], vals[0][3 * k + 1], vals[0][3 * k + 2]))
+    return out
+
+def check_C13(run, replay=None):
+    tier = run.tier
+    thorough = tier != "quick"
+    # long histories: quick ~1e3 calls per history, thorough ~1e5 calls in total per kind
+    task_cases, task_steps = (28, 1000) if not thorough else (210, 1200)
+    reg_hist, reg_steps = (4, 1000) if not thorough else (64, 1600)
+    tm_cases, tm_steps = (16, 1000) if not thorough else (100, 2000)
+    C.proof_stage(run, "C13")
+    rp = json.load(open(replay)) if replay else None
+    seed = run.seed
+    if rp and rp.get("rerun"):
+        r = rp["rerun"]; seed = r["seed"]
+        task_cases, task_steps, reg_hist, reg_steps, tm_cases, tm_steps = r["task"][0], r["task"][1], r["reg"][0], r["reg"][1], r["timer"][0], r["timer"][1]
+    rerun = {"seed": seed, "task": [task_cases, task_steps], "reg": [reg_hist, reg_steps], "timer": [tm_cases, tm_steps]}
+    ok, log, bins = C.harness_build(["bridge_arity", "bridge_twin", "bridge_timers"])
+    run.oblige("harness-build bridge_arity, bridge_twin, bridge_timers (dev, --cfg crux_verif) from the repository's working tree", ok, log[-1500:])
+    kinds = {"task": [], "reg": [], "timer": []}
+    for c in corpus_cases("C13"):
+        if c.get("kind") in kinds: kinds[c["kind"]].append(dict(c, origin="corpus"))
+    if ok:
+        for kind, cmd in (("task", "%s %d %d %d %d" % (bins["bridge_arity"], seed, task_cases, task_steps, task_steps // 2)),
+                          ("reg", "%s %d %d %d %d" % (bins["bridge_twin"], seed, reg_hist, reg_steps, reg_steps // 2)),
+                          ("timer", "%s %d %d %d" % (bins["bridge_timers"], seed, tm_cases, tm_steps))):
+            rc, out = C.sh(cmd, timeout=2400)
+            crashed = 0
+            for l in out.splitlines():
+                if l.startswith("{"):
+                    c = json.loads(l)
+                    if c.get("harness_panic"): crashed += 1; continue
+                    c["kind"] = kind; c["origin"] = "generated seed=%d" % seed; kinds[kind].append(c)
+            run.oblige("harness-run %s histories completed" % kind, rc == 0 and crashed == 0, "rc=%d crashed=%d %s" % (rc, crashed, out[-300:] if rc else ""))
+    if rp:
+        sel = {(c.get("kind"), c.get("case"), c.get("host"), c.get("codec")) for c in rp.get("cases", [])}
+        for k in kinds:
+            again = [c for c in kinds[k] if (c.get("kind"), c.get("case"), c.get("host"), c.get("codec")) in sel]
+            kinds[k] = again if again else [c for c in rp.get("cases", []) if c.get("kind") == k]
+    # the registry histories: only the bincode bridge is evaluated in the quick tier (the json one is identical in C09)
+    if not thorough: kinds["reg"] = [c for c in kinds["reg"] if c.get("codec") != "json"]
+    results = []
+    results += [("task",) + r for r in eval_release(run, "C13_task", kinds["task"], release_task_file)]
+    results += [("reg",) + r for r in eval_release(run, "C13_reg", kinds["reg"], release_reg_file)]
+    results += [("timer",) + r for r in eval_release(run, "C13_timer", kinds["timer"], release_timer_file)]
+    bad_ok, bad_model = [], []
+    lens = collections.Counter(); calls = collections.Counter(); peak = collections.Counter()
+    for kind, c, v, step, mask in results:
+        n_steps = len(c["steps"])
+        calls[kind] += n_steps; lens["%s:%d+" % (kind, n_steps // 250 * 250)] += 1
+        if kind == "reg": peak["max registry occupancy"] = max(peak["max registry occupancy"], max((len(s["snap"]) for s in c["steps"]), default=0))
+        if kind == "task": peak["max live task futures"] = max(peak["max live task futures"], max((s["tok"] for s in c["steps"]), default=0))
+        run.note_case((kind, c.get("host"), c.get("codec"), c.get("case"), n_steps, json.dumps(c["steps"][-3:], sort_keys=True)), nontrivial=n_steps >= 100)
+        run.cov["traces_validated_against_impl"] += 1
+        for bit, name in K_BITS.items():
+            if mask & bit:
+                run.known_seen.setdefault(name, {"kind": kind, "host": c.get("host"), "case": c.get("case"), "calls": n_steps})
+        if v == 2: bad_ok.append((kind, c, step))
+        elif v != 0: bad_model.append((kind, c, step))
+    total = sum(calls.values())
+    run.oblige("correspondence over long histories: model = implementation after every call (%d calls in %d histories: live task futures, "
+               "registry snapshots, cleared-timer set)" % (total, len(results)), not bad_model and len(results) > 0,
+               json.dumps([{"kind": k, "host": c.get("host"), "case": c.get("case"), "step": s, "observed": c["steps"][s] if s < len(c["steps"]) else None} for k, c, s in bad_model[:4]])[:1500])
+    run.oblige("C13_ok holds after every call outside the known classes (live task futures <= resolvable requests once the tasks have run, executor "
+               "occupancy, one-shot entries = outstanding one-shots, a response releases its one-shot entry, cleared set <= waiting timers)",
+               not bad_ok, json.dumps([{"kind": k, "host": c.get("host"), "case": c.get("case"), "step": s, "observed": c["steps"][s] if s < len(c["steps"]) else None} for k, c, s in bad_ok[:4]])[:1500])
+    if bad_ok:
+        bad_ok.sort(key=lambda x: x[2])
+        k, c, s = bad_ok[0]
+        run.violation("C13_ok", {"property": "C13", "what": "something finished was not released (or the bound by outstanding work fails) outside the known classes",
+                                 "kind": k, "first_offending_step": s, "rerun": rerun,
+                                 "cases": [shrink_case(c, s)] + [shrink_case(cc, ss) for _, cc, ss in bad_ok[1:4]],
+                                 "how_to_replay": "./check C13 --replay <this file> regenerates the histories from `rerun`; kind task: steps as in C02 plus tok (task futures alive) and exec "
+                                                  "(executor live tasks); kind reg: calls as in C09 plus exec/tok of bridge and typed twin; kind timer: act, cleared (set size), waiting"})
+    elif bad_model:
+        bad_model.sort(key=lambda x: x[2])
+        run.violation("correspondence", {"property": "C13", "what": "release model and implementation differ; C13_ok still holds on every trace seen",
+                                         "rerun": rerun, "cases": [dict(shrink_case(c, s), at_step=s) for _, c, s in bad_model[:4]]}, no_input=True)
+    run.cov["rule"] = ("long histories (quick: ~1e3 calls each; thorough: ~1e5 calls per kind in total): (task) 7 hosts as in C02 with drop counters on a value captured by every task "
+                       "future and the executor/command live-task hooks read after every call; (reg) twin runs as in C09 with the registry hook read after every call: event/response "
+                       "cycles, renders, subscribe / consumer-ends; (timer) legacy crux_time set / clear / fire with the cleared-set hook. A history is non-trivial when it has >= 100 calls.")
+    run.cov["samples"] = [{"kind": k, "host": c.get("host"), "steps": c["steps"][:2]} for k, c, _, _, _ in results[:3]]
+    run.extra["distribution"] = {"calls_by_kind": dict(calls), "histories_by_kind_and_length": dict(lens), "peaks": dict(peak), "total_calls": total}
+    run.assumptions += ["that dropping a future frees its memory is Rust's; the models show unreachability (receiver gone, nothing buffered, nothing delivered later)",
+                        "task futures are counted through a value every task of the test apps captures; tasks of real apps capture arbitrary values - the theorems are about the runtime's bookkeeping"]
+    run.trusted += ["hand-written models coq/Bridge/{Slab,Bridge,Resolve,Timer}.v", "harness bridge_arity.rs / bridge_twin.rs / bridge_timers.rs + bridge_common (drop counters)",
+                    "verif hooks Bridge::verif_registry, Core::verif_executor_tasks, Command::verif_live_tasks, crux_time::verif_cleared_len (read-only)",
                     "lib/common.py parser of coqc output, engines/bridge_eng.py JSON->Coq printer"]
